@@ -99,6 +99,10 @@ extern "C" void harness()
 	CL * l = new CL(); ListModel m{};
 	int n0 = 1 + (int)vf_choose(3);             // 1..3 callbacks before the faulty operation
 	for(int i = 0; i < n0; i++) { cl_append(*l, 10u + (uint32_t)i); m.ids[m.n++] = 10u + (uint32_t)i; }
+#if defined(WRAPC) && CLASS == 0
+	// C19 x C09: the faulty operation is the one that takes the generation counter over the wrap, or one of the two before it
+	l->currentCounter.value = 0xfffffffdu + vf_choose(3);
+#endif
 	ListModel m2{};                             // callbacks of the second prototype (heterogeneous list only)
 #if CLASS == 3
 	{ int n2 = (int)vf_choose(3); for(int i = 0; i < n2; i++) { cl_append2(*l, 30u + (uint32_t)i); m2.ids[m2.n++] = 30u + (uint32_t)i; } }
